@@ -1,2 +1,65 @@
 //! Verification harnesses compiled into heathcliff::ckks_encoder as child module `verif_v`.
 #![allow(unused, dead_code, non_snake_case)]
+use super::*;
+
+/// Encoder object without the floating-point root tables (CKKSEncoder::new computes them with sin/cos, which CBMC
+/// does not model bit-exactly). The integer entry point does not read them.
+pub(crate) fn mk_ckks_encoder_no_tables(context: Arc<HeContext>, slots: usize) -> CKKSEncoder {
+    CKKSEncoder { context, slots, root_powers: vec![], inv_root_powers: vec![], matrix_reps_index_map: vec![], fft_handler: FFTHandler::new(&ComplexArith {}) }
+}
+
+#[cfg(kani)]
+mod proofs {
+    use super::*;
+    use crate::verif_v::lits;
+
+    // @harness id=C12 tier=quick unwind=8 timeout=1800 fs=4096 kf=ckks_i64_negative_wrap
+    // @desc CKKS integer encoding: for every i64 value that passes the size check, every RNS component of the plaintext holds (value mod q_j) -- the mathematical residue, also for NEGATIVE values whose magnitude exceeds the prime -- identically in all N coefficient slots of that component, with scale 1 and the requested level
+    // @bounds CKKS N=2, q={97,113} (total 14 bits: accepted magnitudes below 2^11, i.e. well above both primes); value symbolic in -2047..2047; slot symbolic
+    // @funcs CKKSEncoder::encode_internal_i64_single, Modulus::reduce
+    // @stubs HeContext::get_context_data -> linear search over the literal chain; alloc::sync::Arc::drop_slow -> no-op
+    #[kani::proof]
+    #[kani::stub(crate::context::HeContext::get_context_data, crate::context::verif_v::get_context_data_stub)]
+    #[kani::stub(alloc::sync::Arc::drop_slow, crate::verif_v::arc_drop_slow_noop)]
+    fn c12_encode_i64_residues() {
+        let ctx = lits::ctx_ckks_n2_2p1();
+        let enc = mk_ckks_encoder_no_tables(ctx.clone(), 1);
+        let pid = *ctx.first_parms_id();
+        let v: i16 = kani::any(); kani::assume(v > -2048 && v < 2048);
+        let mut p = Plaintext::new();
+        enc.encode_internal_i64_single(v as i64, &pid, &mut p);
+        let j: usize = kani::any(); let k: usize = kani::any(); kani::assume(j < 2 && k < 2);
+        let q: i32 = if j == 0 { 97 } else { 113 };
+        let e = (((v as i32) % q) + q) % q;
+        kani::cover!(v < -200);
+        assert!(p.data().len() == 4 && p.coeff_count() == 4);
+        assert!(p.data()[j * 2 + k] == e as u64);
+        assert!(*p.parms_id() == pid && p.scale() == 1.0);
+        std::mem::forget(enc); std::mem::forget(ctx);
+    }
+
+    // @harness id=C12 tier=quick unwind=8 timeout=1800 fs=4096
+    // @desc integer encoding refuses (panics) values whose magnitude does not fit the coefficient modulus, a parms id that is not in the context, and a non-CKKS context
+    // @bounds CKKS N=2 q={97,113}: |value| >= 2^12; foreign parms id; BFV context
+    // @funcs CKKSEncoder::encode_internal_i64_single
+    // @stubs HeContext::get_context_data -> linear search over the literal chain; alloc::sync::Arc::drop_slow -> no-op
+    // @expect panic:Invalid argument
+    #[kani::proof]
+    #[kani::stub(crate::context::HeContext::get_context_data, crate::context::verif_v::get_context_data_stub)]
+    #[kani::stub(alloc::sync::Arc::drop_slow, crate::verif_v::arc_drop_slow_noop)]
+    fn c12_encode_i64_refusals() {
+        let c: u8 = kani::any();
+        let mut p = Plaintext::new();
+        match c {
+            0 => { let ctx = lits::ctx_ckks_n2_2p1(); let enc = mk_ckks_encoder_no_tables(ctx.clone(), 1); let pid = *ctx.first_parms_id();
+                   let v: i64 = kani::any(); kani::assume(v >= 4096 || (v <= -4096 && v > i64::MIN)); enc.encode_internal_i64_single(v, &pid, &mut p); }
+            1 => { let ctx = lits::ctx_ckks_n2_2p1(); let enc = mk_ckks_encoder_no_tables(ctx.clone(), 1); let mut pid = *ctx.first_parms_id(); pid[1] ^= 5;
+                   enc.encode_internal_i64_single(3, &pid, &mut p); }
+            _ => { let ctx = lits::ctx_bfv_n2_1p(); let enc = mk_ckks_encoder_no_tables(ctx.clone(), 1); let pid = *ctx.first_parms_id();
+                   enc.encode_internal_i64_single(3, &pid, &mut p); }
+        }
+        kani::cover!(true, "AFTER: refused encoding returned");
+    }
+
+    #[cfg(test)] include!("/verif/.build/playback/ckks_encoder_v.rs");
+}
